@@ -123,9 +123,12 @@ class PDDLReader:
             assert self._up_pddl_reader is not None
             return self._up_pddl_reader.parse_problem_string(domain_str, problem_str)
         if self._force_ai_planning_reader:
-            ai_domain = DomainParser()(domain_str)
+            # PDDL is case-insensitive: as in the UPPDDLReader, everything is turned to lower case
+            ai_domain = DomainParser()(domain_str.lower())
             ai_problem = (
-                ProblemParser()(problem_str) if problem_str is not None else None
+                ProblemParser()(problem_str.lower())
+                if problem_str is not None
+                else None
             )
             return convert_problem_from_ai_pddl(ai_domain, ai_problem, self._env)
 
@@ -133,8 +136,11 @@ class PDDLReader:
         if check_ai_pddl_requirements(requirements):
             ai_pddl_parsing_failed = False
             try:
-                ai_domain = DomainParser()(domain_str)
-                ai_problem = ProblemParser()(problem_str)
+                # PDDL is case-insensitive: as in the UPPDDLReader, everything is turned to lower case
+                ai_domain = DomainParser()(domain_str.lower())
+                ai_problem = ProblemParser()(
+                    problem_str.lower() if problem_str is not None else problem_str
+                )
             except Exception as e:
                 ai_pddl_parsing_failed = True
                 if self._deactivate_fallback:
